@@ -4,12 +4,14 @@ use crate::mv::*;
 use crate::rng::Rng;
 
 pub const NUMS_SMALL: &[u64] = &[0, 1, 2, 3];
-pub const NUMS_POOL: &[u64] = &[0, 0, 0, 1, 1, 1, 2, 2, 3, 9, 10, 11, 99, 100, 1 << 31, 1 << 32, MAX_SAFE - 1, MAX_SAFE];
+pub const NUMS_POOL: &[u64] = &[0, 0, 0, 1, 1, 1, 2, 2, 3, 9, 10, 11, 99, 100, 1 << 31, 1 << 32, MAX_SAFE - 1, MAX_SAFE, 100_000_000, 300_000_000, 2_100_000_000, 4_294_967_295, 5_000_000_000, 9_999_999_999, 10_000_000_000, 1_000_000_000_000, 900_719_900_000_000];
 pub const ID_ATOMS: &[&str] = &[
     "0", "1", "2", "9", "10", "a", "A", "b", "alpha", "beta", "rc", "-", "--", "a-", "-a", "0a", "a0", "1a", "x", "X", "18446744073709551615",
     "18446744073709551614", "pre", "z", "Z", "0-0", "-0", "-1",
     // texts other number syntaxes would accept (float / exponent / radix / separators / specials)
     "1e5", "2E10", "7e-3", "0e0", "1e", "0x10", "0b1", "0o7", "1f", "1d", "inf", "nan", "NaN", "infinity", "1-0", "00a", "0-", "9007199254740993", "900719925474099", "900719925474100",
+    // decimal-round numbers (chunked / digit-group parsers), capital letters
+    "100000000", "300000000", "2100000000", "10000000000", "900719900000000", "1000000000000000000", "DEV", "RC", "V2", "V", "X",
 ];
 
 pub fn rand_ids(r: &mut Rng, max: usize) -> Vec<String> {
